@@ -3,7 +3,7 @@ NEXT Next
 CONSTANTS
   BlockSize = 2
   ResetFreeOnClear = TRUE
-  Dims <- DimsTiny
+  Dims <- DimsSmall
   NSparse = 2
   NDense = 1
   MaxDepth = 6
